@@ -19,7 +19,7 @@ from concurrent.futures import ThreadPoolExecutor
 from harness import colang2, progs2, tlc, v2corpus
 
 SPEC_DIR = "/verif/specs/colang2"
-FRAGMENT_FEATURES = {"when", "if", "while", "groups", "return", "abort", "vars", "start", "actions", "refs", "activate", "priority", "loop", "params", "endflow", "globals", "label"}
+FRAGMENT_FEATURES = {"when", "if", "while", "groups", "return", "abort", "vars", "start", "actions", "refs", "activate", "priority", "loop", "params", "endflow", "globals", "label", "deactivate"}
 INVARIANTS = ("QueueEmpty", "Parked", "IndexIsScan", "DoneNoHeads",      # C09
               "L1S", "L2S",                                                # C06 (keeper, action life-cycle monitor)
               "C05S",                                                      # C05 (every conflict resolution of the call: winner not beaten, identical co-win, rest stopped)
@@ -44,6 +44,8 @@ DIRECTED = [
     # the restart label reached before the flow has started (the early restart is refused: the instance restarts when it ends), finishing / failing
     "flow z\n  send Out1()\n  start_new_flow_instance:\n  match E1()\n\nflow main\n  activate z\n  match E3()\n  send Out2()\n  match Never()\n",
     "flow z\n  start A1Action(x=1)\n  start_new_flow_instance:\n  match E1()\n  abort\n\nflow main\n  activate z\n  match E3()\n  send Out2()\n  match Never()\n",
+    # an activated flow that finished once is deactivated by its activator, which keeps running; time passes (old instances are discarded)
+    "flow r\n  match E1()\n  send Out1()\n\nflow p\n  activate r\n  match E2()\n  deactivate r\n  match E3()\n  send Out2()\n\nflow main\n  activate p\n  match Never()\n",
     # an action that lives in the scope of an or-group: stopped when the group is left, its Started may still arrive later
     "flow f\n  match E1()\n\nflow o\n  await f or A1Action(x=1)\n  match E2()\n  send Out1()\n\nflow main\n  start o\n  match E3()\n  match Never()\n",
     "flow o\n  when A1Action(x=1)\n    send Out1()\n  or when E1()\n    send Out2()\n  match E2()\n\nflow main\n  activate o\n  match E3()\n  match Never()\n",
@@ -115,7 +117,8 @@ def explore(ctx, nprog, maxhist, maxpick, seed_offset=0, counter=None, maxtick=1
         cfg = ("CONSTANTS MaxHist = %d\nMaxPick = %d\nMaxTick = %d\nSPECIFICATION Spec\nVIEW SView\nINVARIANT EmitState\n" % (
             maxhist + (1 if deep else 0), maxpick, maxtick + (1 if deep else 0))
                # (the action life-cycle monitor L2S speaks about Stops the interpreter sends on its own: not checked for programs that send Stop themselves)
-               + "".join("INVARIANT %s\n" % x for x in INVARIANTS if not (x == "L2S" and ".Stop()" in src)) + "".join("PROPERTY %s\n" % x for x in PROPERTIES))
+               + "".join("INVARIANT %s\n" % x for x in INVARIANTS if not (x == "L2S" and ".Stop()" in src)) # (and the restart rule L3S about flows the program does not deactivate itself)
+               + "".join("PROPERTY %s\n" % x for x in PROPERTIES if not (x == "L3S" and "deactivate" in src)))
         return tlc.run("MC_ColangSM.tla", cfg, wd, spec_dirs=[SPEC_DIR], env={"PROG_FILE": pf}, workers=1, timeout=1800, expect_fail=True)
 
     with ThreadPoolExecutor(16) as ex:
@@ -235,7 +238,7 @@ def _replay_program(k):
             # the dispatch index: (instance number, event name) multiset
             alive = [f["k"] for f in p["proj"]["flows"] if f["status"] != "GONE"]       # instance numbers of the specification that still exist
             inst = {uid: alive[j] for j, uid in enumerate(s.flow_states.keys())} if len(alive) == len(s.flow_states) else {uid: -1 for uid in s.flow_states}
-            ridx = sorted((inst[fu], name) for name, lst in s.event_matching_heads.items() for (fu, hu) in lst)
+            ridx = sorted((inst.get(fu, -2), name) for name, lst in s.event_matching_heads.items() for (fu, hu) in lst)
             sidx = sorted((x[0], x[2]) for x in p["proj"]["index"])
             if real != spec or rout != sout or ridx != sidx or ract != sact:
                 out["drift"] += 1
